@@ -5,6 +5,7 @@ import SciVerif.Lemmas.C18e
 import SciVerif.Lemmas.C18g
 import SciVerif.Lemmas.C18h
 import SciVerif.Lemmas.C18i
+import SciVerif.Lemmas.C18j
 
 /-!
 # C18 — DIP expressions compute unit-aware results under the documented priorities
@@ -199,6 +200,20 @@ theorem C18_priorities (N : NumOps F) (C : CmpOps F) (a b c : QV F) (x y z w : L
   · rw [C18_numeric_partial N id _ (by simp [E.WF, numGrammar, E.top])]; rfl
   · rw [C18_logical_partial C id _ (by simp [E.WF, logGrammar, E.top, isCmp])]
     simp [E.eval, logBinSem, logBin, logPreSem, isCmp]
+
+/-- **The comparison operators are consistent on the same operands**, for all operand kinds
+    (bool, str, numbers with and without units, literals, raising and refused operands) and every
+    `isclose` / `<` / unit conversion: `a != b` is the negation of `a == b` (same refusals, same
+    exceptions), `a <= b` is `a < b || a == b`, `a >= b` is `a > b || a == b`; hence the trees
+    `a != b` and `~ a == b` have the same value. -/
+theorem C18_cmp_consistent (C : CmpOps F) (l r : LV F) :
+    cmpOp C "ne" l r = lNot (cmpOp C "eq" l r) ∧
+    cmpOp C "le" l r = lOr (cmpOp C "lt" l r) (cmpOp C "eq" l r) ∧
+    cmpOp C "ge" l r = lOr (cmpOp C "gt" l r) (cmpOp C "eq" l r) ∧
+    (E.bin "ne" (.lit l) (.lit r)).eval (logSem C) (logBinSem C) logPreSem id =
+      (E.pre "not" (.bin "eq" (.lit l) (.lit r))).eval (logSem C) (logBinSem C) logPreSem id := by
+  refine ⟨cmp_ne_not_eq C l r, cmp_le_lt_or_eq C l r, cmp_ge_gt_or_eq C l r, ?_⟩
+  simp [E.eval, logBinSem, logBin, logPreSem, isCmp, cmp_ne_not_eq]
 
 /-- **Operands of different dimension cannot be added**: `+`/`−` between quantities whose dimension
     exponents differ raises, and the error reaches the result of every arithmetic context. -/
